@@ -24,8 +24,8 @@ from common import req, close, TOL, run_driver
 import scen_profile as sp
 
 META = {
-    'text': 'Theorems (Lean 4, over the reals, all inputs, every seawater-density function): coarsen output = the kept rows, each followed in the input by a run of dropped rows that are within err of it in every variable (relative to the dropped value, exactly-zero entries exempt as in the code), it is a sub-list, keeps first and last row and preserves strict increase of depth; in its domain stabilize returns exactly the rows selected by its mask (re-interpolating T,S of kept rows from kept rows changes nothing, by the C07 node theorem), keeps first and last row, and the potential density of all kept rows EXCEPT THE LAST is non-decreasing; compute_pressure returns atmospheric pressure (plus the weight above the first level) at the surface and the recurrence P[i+1]=P[i]+rho(T[i],S[i],P[i])*g*dz, increasing when rho>0, for positive depths/surface first and for negative depths/surface last; extract_profile returns a contiguous block of input rows plus at most one surface row. Proved counterexamples: stabilize does not test the deepest row; extract_profile keeps the first reversed sample; compute_pressure is wrong/raises for the two other documented (sign, fs_loc) combinations. The model is tied to the real functions and to real Profile construction by differential execution; the predicates are evaluated on the real outputs.',
-    'note': 'Trusted: Lean kernel + 3 standard axioms; Model/Profile.lean is a hand transcription tied by differential execution (tolerance 1e-11, row selection exact; a selection that differs only because two densities are equal to 1e-11 is counted, not judged); seawater density in the model = Gen.SeawaterPy regenerated from seawater.py; real arithmetic as stand-in for doubles. The four input adapters are I/O glue: NOT modelled, checked by a TEST (same synthetic cast through all four forms, interp_data bit for bit). Unit conversion itself belongs to C15; here the harness applies value*factor+offset. stabilize_monotone is PARTIAL (all but the deepest row) because the full statement is false of model and code.',
+    'text': 'Theorems (Lean 4, over the reals, all inputs, every seawater-density function): coarsen output = the kept rows, each followed in the input by a run of dropped rows that are within err of it in every variable (relative to the dropped value, exactly-zero entries exempt as in the code), it is a sub-list, keeps first and last row and preserves strict increase of depth; in its domain stabilize returns exactly the rows selected by its mask (re-interpolating T,S of kept rows from kept rows changes nothing, by the C07 node theorem), keeps first and last row, and the potential density of all kept rows EXCEPT THE LAST is non-decreasing; compute_pressure returns atmospheric pressure (plus the weight above the first level) at the surface and the recurrence P[i+1]=P[i]+rho(T[i],S[i],P[i])*g*dz, increasing when rho>0 at the visited states, for positive depths/surface first and for negative depths/surface last; extract_profile returns a contiguous block of input rows plus at most one copy of an input row at depth 0 with atmospheric pressure; construct (pressure supplied, stabilisation off) stores a sub-list of the input with first/last row and strict increase. Proved counterexamples: stabilize does not test the deepest row; extract_profile keeps the first reversed sample; compute_pressure is wrong/raises for the two other documented (sign, fs_loc) combinations. The model is tied to the real functions and to real Profile construction (all input forms, canonical and non-canonical variable order, with and without pressure, with extra variables) by differential execution; the predicates (stating the property, with independent oracles for pressure and unit labels) are evaluated on the real outputs, also for negative-depth and bottom-first casts through Profile().',
+    'note': 'Trusted: Lean kernel + 3 standard axioms; Model/Profile.lean is a hand transcription tied by differential execution (tolerance 1e-11, row selection exact; a selection that differs only because two densities are equal to 1e-11 is counted, not judged); seawater density in the model = Gen.SeawaterPy regenerated from seawater.py; real arithmetic as stand-in for doubles. Only FUNCTION-LEVEL statements are proved for the pipeline with stabilisation on (column reordering + stabilize): that composition is covered by the differential run against real Profile(...) only. The input adapters are I/O glue: NOT modelled, checked by a TEST (same synthetic cast through all forms, stored columns compared bit for bit by name). Unit conversion itself belongs to C15; here the harness applies value*factor+offset and checks the unit LABELS against an independent oracle. stabilize_monotone is PARTIAL (all but the deepest row) because the full statement is false of model and code. Known-finding keys are matched on the exact failure signature (recomputed by the harness), anything else in the same configuration gets a different key. Raises of the code under test are keyed violations; coverage floors are obligations.',
     'technique': 'Lean 4 proof over a hand model + differential execution against the real functions and real Profile construction; adapters by test',
 }
 GEN = ['seawater']
@@ -33,7 +33,8 @@ MODULES = ['TamocV.Props.C14', 'TamocV.Gen.SeawaterPy', 'TamocV.Model.Profile']
 RULE = ('synthetic casts of 3-2000 levels (log-uniform + edge sizes), thermocline/halocline shapes with noise 0-5%, 0-5 warm/fresh parcels anywhere and (25%) a light deepest level, '
         '0-6 extra variables with exact zeros, pressure supplied or not, recognised unit systems; err in {0} U [1e-6,0.5]; stabilisation on/off; coarsen / stabilize / compute_pressure '
         '(all four documented (sign of depth, fs_loc) combinations) / extract_profile (raw records with a surface yo-yo and an up-cast, any depth column, p_col or None, z_start) called '
-        'directly, and Profile(...) built through array / xarray / netCDF file / open netCDF dataset; a case is non-trivial when (function, levels, columns, err, options) is new')
+        'directly, and Profile(...) built through array / xarray / netCDF file / open netCDF dataset / BaseProfile with the variables in canonical or shuffled order, with and without a pressure variable '
+        '(also with extra variables), plus negative-depth (surface-first / bottom-first) and positive bottom-first casts through Profile(); a case is non-trivial when (function, levels, columns, err, options) is new')
 LEVEL_NOTE = ('theorems over the reals about a hand-written model of coarsen / stabilize / compute_pressure / extract_profile, tied to the real code by differential execution '
               '(tolerance 1e-11, exact row selection); the format adapters are covered by a test only')
 SCRATCH = '/root/scratch/c07'
